@@ -116,6 +116,9 @@ Zoo == { VInf, VNegInf, VNan, VFloat(200000), VInt(2000), VInt(-2000), VInt(3000
          VObj("complex1", <<>>, NoneOpt), VObj("range3", <<>>, NoneOpt),
          VObj("object_a", <<>>, NoneOpt), VObj("uuidlike", <<>>, NoneOpt),
          VObj("type_int", <<>>, NoneOpt), VObj("notimplemented", <<>>, NoneOpt),
+         \* sets whose members cannot be ordered; objects that can be neither copied nor pickled
+         VObj("set_mixed", <<>>, NoneOpt), VObj("frozenset_mixed", <<>>, NoneOpt),
+         VObj("generator", <<>>, NoneOpt), VObj("lock", <<>>, NoneOpt), VObj("uncopyable", <<>>, NoneOpt),
          VObj("MyInt", <<"int">>, Some(VInt(1))), VObj("MyFloat", <<"float">>, Some(VFloat(25))),
          VObj("MyStr", <<"str">>, Some(VStr(<<97, 98>>))), VObj("MyBytes", <<"bytes">>, Some(VBytes(<<97>>))),
          VObj("MyList", <<"list">>, Some(VList(<<VInt(1)>>))),
@@ -124,6 +127,7 @@ Zoo == { VInf, VNegInf, VNan, VFloat(200000), VInt(2000), VInt(-2000), VInt(3000
 
 \* hashable members usable as extra dict keys
 ZooKeys == { VNan, VObj("tuple12", <<>>, NoneOpt), VObj("frozenset1", <<>>, NoneOpt), VInt(2000), VNone,
+             VObj("frozenset_mixed", <<>>, NoneOpt), VObj("uncopyable", <<>>, NoneOpt),
              VObj("object_a", <<>>, NoneOpt), VBool(TRUE), VFloat(50), VBytes(<<97>>) }
 
 (***************************************************************************)
